@@ -131,6 +131,10 @@ class YAMLPath:
             if self.separator is PathSeparators.AUTO
             else self.separator)
         if len(self._original) < 1:
+            if segment.startswith("/"):
+                # Lest this dot-notated path be mistaken for forward-slash
+                # notation, whose segments are written with / escaped.
+                segment = "\\" + segment
             self.original = segment
         else:
             self.original += "{}{}".format(separator, segment)
